@@ -24,6 +24,10 @@ import (
 func (vc *VC) kvitCur(st *State) *Term {
 	return vc.heap(st, "KVITcur", vc.eng.st.ArrayOf(sortInt, sortStr))
 }
+// kvitSum: per iterator, the sum of Credit over the entries it has moved past (ledger key spaces only)
+func (vc *VC) kvitSum(st *State) *Term {
+	return vc.heap(st, "KVITsum", vc.eng.st.ArrayOf(sortInt, sortInt))
+}
 func (vc *VC) kvitVis(st *State) *Term {
 	ST := vc.eng.st
 	return vc.heap(st, "KVITvis", ST.ArrayOf(sortInt, ST.ArrayOf(sortStr, sortBool)))
@@ -83,6 +87,10 @@ func init() {
 		vc.iterPid[it.S] = id
 		vc.setHeap(st, "KVITvis", Store(vc.kvitVis(st), it, ST.Zero(ST.ArrayOf(sortStr, sortBool))))
 		vc.setHeap(st, "KVITcur", Store(vc.kvitCur(st), it, vc.fresh("itkey", sortStr)))
+		vc.setHeap(st, "KVITsum", Store(vc.kvitSum(st), it, IntLit(0)))
+		// what the database held when the walk started: the visited sum equals the space's sum at the end only if
+		// nothing was written in between
+		vc.iterSeekState[it.S] = kvFingerprint(st)
 		return nil
 	}
 	kvModels[lib+".Iterator).Next"] = func(vc *VC, st *State, c *ssa.CallCommon, args []Value, pos string) Value {
@@ -92,6 +100,14 @@ func init() {
 		vis := Select(vc.kvitVis(st), it, ST.ArrayOf(sortStr, sortBool))
 		vc.setHeap(st, "KVITvis", Store(vc.kvitVis(st), it, Store(vis, cur, tTrue)))
 		vc.setHeap(st, "KVITcur", Store(vc.kvitCur(st), it, vc.fresh("itkey", sortStr)))
+		if id, ok := vc.iterPid[it.S]; ok && (id == vc.eng.keyPrefixID("vip:balance:") || id == vc.eng.keyPrefixID("vip:trial:")) {
+			if bt := vc.eng.balanceType(); bt != nil {
+				bs := vc.eng.st.SortOf(bt)
+				_, h := vc.kvVal(st, bs)
+				sums := vc.kvitSum(st)
+				vc.setHeap(st, "KVITsum", Store(sums, it, Bin(sortInt, "+", Select(sums, it, sortInt), vc.balanceCredit(Select(h, cur, bs), bs))))
+			}
+		}
 		return nil
 	}
 	kvModels[lib+".Iterator).ValidForPrefix"] = func(vc *VC, st *State, c *ssa.CallCommon, args []Value, pos string) Value {
@@ -113,6 +129,13 @@ func init() {
 		k := T(sortStr, q)
 		all := fmt.Sprintf("(forall ((%s Str)) (! (=> %s %s) :pattern ((select %s %s))))", q, And(vc.kvLive(st, k), inSpace(k)).S, Select(vis, k, sortBool).S, vis.S, q)
 		st.assume(Implies(Not(b), T(sortBool, all)))
+		if id != vc.eng.keyPrefixID("vip:balance:") && id != vc.eng.keyPrefixID("vip:trial:") {
+			// the visited sum only ever grows over the two ledger key spaces
+			st.assume(Eq(Select(vc.kvitSum(st), it, sortInt), IntLit(0)))
+		} else if fp, ok := vc.iterSeekState[it.S]; ok && fp == kvFingerprint(st) {
+			// every live entry of the space was passed exactly once and the database was not written meanwhile
+			st.assume(Implies(Not(b), Eq(Select(vc.kvitSum(st), it, sortInt), Select(vc.kvSums(st), IntLit(int64(id)), sortInt))))
+		}
 		return b
 	}
 	kvModels[lib+".Iterator).Item"] = func(vc *VC, st *State, c *ssa.CallCommon, args []Value, pos string) Value {
@@ -193,10 +216,10 @@ func kvItemValue(vc *VC, st *State, c *ssa.CallCommon, args []Value, pos string)
 			refuse("Item.Value callback decodes into something that is not a captured variable")
 		}
 		cellT := d.X.Type().Underlying().(*types.Pointer).Elem()
-		iv := vc.term(st, vc.load(st, vc.asPtr(bv, cellT)), "into")
+		iv := vc.unfoldSelect(vc.term(st, vc.load(st, vc.asPtr(bv, cellT)), "into"))
 		tag, err := strconv.Atoi(ifaceTag(iv).S)
 		if err != nil || tag <= 0 || tag > len(vc.eng.tagTypes) {
-			refuse("Item.Value callback decodes into an interface value whose dynamic type is not known statically")
+			refuse("Item.Value callback decodes into an interface value whose dynamic type is not known statically: %s", abbreviate(iv.S, 300))
 		}
 		pt, isPtr := vc.eng.tagTypes[tag-1].Underlying().(*types.Pointer)
 		if !isPtr {
@@ -306,4 +329,72 @@ func shuffleModel(vc *VC, st *State, c *ssa.CallCommon, args []Value, pos string
 
 func init() {
 	kvModels["math/rand.Shuffle"] = shuffleModel
+}
+
+// kvFingerprint identifies the contents of the database heaps on a path (term identity): equal fingerprints mean
+// nothing was written between two points.
+func kvFingerprint(st *State) string {
+	var b strings.Builder
+	for _, n := range sortedKeys(func() map[string]bool {
+		m := map[string]bool{}
+		for _, x := range kvHeapNames(st) {
+			if !strings.HasPrefix(x, "KVIT") {
+				m[x] = true
+			}
+		}
+		return m
+	}()) {
+		b.WriteString(n + "=" + st.heaps[n].S + ";")
+	}
+	return b.String()
+}
+
+// bytes.Buffer used as a string builder (Reset / WriteString / WriteRune / String): the buffer's contents as a ghost
+// string per buffer object. Besides new = old ++ s, the model states the re-association a prefix/suffix argument needs:
+// when old is itself a ++ b, new == a ++ (b ++ s).
+func (vc *VC) bufHeap(st *State) *Term {
+	return vc.heap(st, "BUFSTR", vc.eng.st.ArrayOf(sortInt, sortStr))
+}
+
+func (vc *VC) bufRef(v Value) *Term {
+	if p, ok := v.(*Ptr); ok && len(p.Path) == 0 {
+		return p.Base
+	}
+	refuse("bytes.Buffer that is a field or element of another object")
+	return nil
+}
+
+func (vc *VC) bufAppend(st *State, recv Value, s *Term) {
+	r := vc.bufRef(recv)
+	old := Select(vc.bufHeap(st), r, sortStr)
+	nw := vc.strCat(st, old, s)
+	if a, ok := ctorArgs(old.S, "strcat"); ok && len(a) == 2 {
+		st.assume(Eq(nw, vc.strCat(st, T(sortStr, a[0]), vc.strCat(st, T(sortStr, a[1]), s))))
+	}
+	vc.setHeap(st, "BUFSTR", Store(vc.bufHeap(st), r, nw))
+}
+
+func init() {
+	kvModels["(*bytes.Buffer).Reset"] = func(vc *VC, st *State, c *ssa.CallCommon, args []Value, pos string) Value {
+		vc.setHeap(st, "BUFSTR", Store(vc.bufHeap(st), vc.bufRef(args[0]), T(sortStr, "str_empty")))
+		return nil
+	}
+	kvModels["(*bytes.Buffer).WriteString"] = func(vc *VC, st *State, c *ssa.CallCommon, args []Value, pos string) Value {
+		s := vc.term(st, args[1], "s")
+		vc.bufAppend(st, args[0], s)
+		return Tuple{App(sortInt, "strlen", s), T(sortIface, "(mk_iface 0 0)")}
+	}
+	kvModels["(*bytes.Buffer).WriteRune"] = func(vc *VC, st *State, c *ssa.CallCommon, args []Value, pos string) Value {
+		vc.declareFun("runestr", []*Sort{sortInt}, sortStr)
+		rs := App(sortStr, "runestr", vc.term(st, args[1], "r"))
+		st.assume(Bin(sortBool, ">=", App(sortInt, "strlen", rs), IntLit(1)))
+		vc.bufAppend(st, args[0], rs)
+		return Tuple{App(sortInt, "strlen", rs), T(sortIface, "(mk_iface 0 0)")}
+	}
+	kvModels["(*bytes.Buffer).String"] = func(vc *VC, st *State, c *ssa.CallCommon, args []Value, pos string) Value {
+		if p, ok := args[0].(*Ptr); ok && p.Nil {
+			return vc.eng.strLit("<nil>")
+		}
+		return Select(vc.bufHeap(st), vc.bufRef(args[0]), sortStr)
+	}
 }
